@@ -169,7 +169,10 @@ class ModBuilder:
                 obj = getattr(obj, seg)
             return obj
         if k == "anon":
-            members = {name: self.expr(sub) for name, sub in e[1].items()}
+            items = list(e[1].items())
+            if self.design.get("anon_order") == "reversed":  # (the order in which members are written carries no meaning)
+                items.reverse()
+            members = {name: self.expr(sub) for name, sub in items}
             if e[2:] and e[2] == "dict":
                 return members  # dict shorthand, converted by Instance.connect
             return h.bundlize(**members)
